@@ -616,8 +616,83 @@ func broadcastScenario(name string, bin bool) Scenario {
 	}}
 }
 
+// (10) C03 / C04 / C09: the constructor window of a session on a stream transport. The handshaking goroutine is held at one of its
+// yield points - inside SetReadyState("open") (listeners attached, state still "opening"), at the flush / drain of the open
+// packet, after the constructor, after the table entry, after the registry's close listener - while the peer's connection fails
+// or closes (the transport's reader goroutine is running from the transport's construction on). What the application is handed
+// afterwards must be open (not a session whose transport was already gone), the table must end up without it, and whatever
+// happens the state never goes back.
+const openLogPoint = "log:readyState updated from %s to %s"
+
+func openWinScenario(name, kind, point, fault string) Scenario {
+	return Scenario{Name: name, Run: func(t *testing.T, rec *Rec, g *Gates) {
+		cfg := EngCfg{PI: 2 * time.Second, PT: time.Second, WT: true}
+		w := newEngWorld(t, rec, g, cfg)
+		sc := &Script{w: w, r: rand.New(rand.NewSource(1)), cfg: cfg, W: map[string]int{}}
+		// a bystander
+		s0, _ := w.Handshake(4, false, false, ReqOpt{})
+		c0 := &cliSess{S: s0, Kind: "polling", autoPong: true}
+		sc.ss = append(sc.ss, c0)
+		sc.settle()
+		nconn, trsAtConn := 0, ""
+		w.Hook("connection", func(sid string, _ ...any) {
+			nconn++
+			if so := w.Sock(sid); so != nil && so.Transport() != nil {
+				trsAtConn = so.Transport().ReadyState()
+			}
+		})
+		g.Park(point, true)
+		s := &Sess{Proto: 4}
+		c := &cliSess{S: s, Kind: "websocket", autoPong: true}
+		if kind == "webtransport" {
+			c.ws = w.DialWT(s, func(wc *WSClient, p Pkt) { sc.processPkts(c, []Pkt{p}, wc) })
+		} else {
+			c.ws = w.DialWS(s, "", nil, func(wc *WSClient, p Pkt) { sc.processPkts(c, []Pkt{p}, wc) })
+		}
+		sc.ss = append(sc.ss, c)
+		sc.settle()
+		held := g.Parked(point) > 0
+		g.Park(point, false) // (the same debug statement is passed again by OnClose: only the constructor is held)
+		if held {
+			if s.Sid != "" {
+				w.Cause(s.Sid, "error")
+				w.Cause(s.Sid, "peer")
+			}
+			if fault == "closeframe" {
+				c.ws.CloseFrame()
+			} else {
+				c.ws.Drop()
+			}
+			c.dead = true
+			sc.settle()
+		}
+		g.ReleaseAll()
+		sc.settle()
+		// whatever heartbeat a session left behind by the constructor would run
+		sc.sleepAlive(cfg.PI + cfg.PT + time.Second)
+		sc.settle()
+		live := 0
+		for _, k := range w.Srv.Clients().Keys() {
+			if k != s0.Sid {
+				live++
+			}
+		}
+		rec.Log("openwin", "point", point, "fault", fault, "held", held, "handed", nconn > 0, "trs", trsAtConn, "left", live)
+		w.Snapshot()
+		sc.Drain()
+		w.Finish()
+	}}
+}
+
 func directFamily() []Scenario {
 	var out []Scenario
+	for _, kind := range []string{"websocket", "webtransport"} {
+		for _, point := range []string{openLogPoint, "S.flush", "S.drain", "handshake.constructed", "handshake.stored", "handshake.listening"} {
+			for _, fault := range []string{"drop", "closeframe"} {
+				out = append(out, openWinScenario(fmt.Sprintf("openwin_%s_%s_%s", kind, shortPoint(point), fault), kind, point, fault))
+			}
+		}
+	}
 	out = append(out, broadcastScenario("broadcast_text", false), broadcastScenario("broadcast_binary", true))
 	for _, kind := range []string{"websocket", "webtransport"} {
 		for _, probe := range []bool{false, true} {
